@@ -8,7 +8,7 @@ EXTENDS Props, Encode, Json, TLC
 CONSTANTS Sizes, Limits, Alphabet(_), MaxDepth, Emit
 VARIABLES a, b, dr, n, ok, hist
 vars == <<a, b, dr, n, ok, hist>>
-Behaviour(h, st) == "@@ BEHAVIOUR " \o ToJson([init |-> h.init, ops |-> h.ops, st |-> st])
+Behaviour(h, st, ch) == "@@ BEHAVIOUR " \o ToJson([init |-> h.init, ops |-> h.ops, st |-> st, ch |-> ch])
 
 Init == \E sz \in Sizes, lim \in Limits :
           /\ a = Fresh(sz[1], sz[2], lim) /\ b = Fresh(sz[1], sz[2], -1)
@@ -21,7 +21,7 @@ Next ==
            h == [hist EXCEPT !.ops = Append(@, [k |-> "fs", s |-> Enc(fn)])] IN
        /\ a' = ra.vt /\ b' = rb.vt /\ dr' = d2 /\ n' = n + 1
        /\ hist' = h
-       /\ Emit => PrintT(Behaviour(h, ra.vt))
+       /\ Emit => PrintT(Behaviour(h, ra.vt, ra.ch))
        /\ ok' = (/\ ok
                  /\ Bound(ra.vt)
                  /\ rb.dr = <<>>
